@@ -92,6 +92,9 @@ type runner struct {
 	impKeys    map[int]*big.Int
 	scripts    map[int][]byte
 	legacyHit  bool
+	// C04 boundary: has the transaction store (wtxmgr namespace of the same file) been written to yet?
+	txRecorded bool
+	nTx        int
 }
 
 func (r *runner) Close() {
@@ -342,8 +345,12 @@ func (r *runner) update(tap *puttap.Tap, f func(ns walletdb.ReadWriteBucket) err
 
 func (r *runner) imagePath() string { return filepath.Join(r.dir, "w.db") }
 
-// scanImage reads the raw database file and reports every registered secret (and, since no transaction is ever
-// recorded by this engine, every registered public item) found in it.
+// scanImage reads the raw database file and reports every registered secret found in it (always a violation) and
+// checks the boundary of C04's public clause:
+//   - before the first wtxmgr write: no registered public item anywhere in the file;
+//   - afterwards: the waddrmgr namespace (every bucket, key and value, walked through the database API) still holds
+//     no public item, and every public item found in the raw image also occurs inside a wtxmgr bucket
+//     (so public material exists in the file only because, and only where, the transaction store put it).
 func (r *runner) scanImage() []string {
 	img, err := os.ReadFile(r.imagePath())
 	if err != nil {
@@ -351,18 +358,69 @@ func (r *runner) scanImage() []string {
 	}
 	var out []string
 	seen := map[string]bool{}
-	for _, n := range r.reg.scan(img, true) {
-		kind := "public"
-		if n.secret {
-			kind = "secret"
-		}
-		k := fmt.Sprintf("C04 key=image-%s.%s: database file image contains %s in the clear", kind, n.class, n.what)
+	add := func(k string) {
 		if !seen[k] {
 			seen[k] = true
 			out = append(out, k)
 		}
 	}
+	var inTx map[string]bool
+	if r.txRecorded {
+		inTx = map[string]bool{}
+		_ = walletdb.View(r.db, func(tx walletdb.ReadTx) error {
+			if ns := tx.ReadBucket(wtxNS); ns != nil {
+				walkBucket(ns, nil, func(path []string, k, v []byte) {
+					for _, buf := range [][]byte{k, v} {
+						for _, n := range r.reg.scan(buf, true) {
+							if n.secret {
+								add(fmt.Sprintf("C04 key=wtxmgr-secret.%s: wtxmgr bucket %s holds %s in the clear", n.class, strings.Join(path, "/"), n.what))
+							} else {
+								inTx[n.class+"\x00"+string(n.b)] = true
+							}
+						}
+					}
+				})
+			}
+			if ns := tx.ReadBucket(nsKey); ns != nil {
+				walkBucket(ns, nil, func(path []string, k, v []byte) {
+					for _, buf := range [][]byte{k, v} {
+						for _, n := range r.reg.scan(buf, true) {
+							kind := "public"
+							if n.secret {
+								kind = "secret"
+							}
+							add(fmt.Sprintf("C04 key=waddrmgr-%s.%s: waddrmgr bucket %s holds %s in the clear (a transaction has been recorded; the address manager namespace must stay clean regardless)", kind, n.class, pathStr(path), n.what))
+						}
+					}
+				})
+			}
+			return nil
+		})
+	}
+	for _, n := range r.reg.scan(img, true) {
+		switch {
+		case n.secret:
+			add(fmt.Sprintf("C04 key=image-secret.%s: database file image contains %s in the clear", n.class, n.what))
+		case !r.txRecorded:
+			add(fmt.Sprintf("C04 key=image-public.%s: database file image contains %s in the clear before any transaction was recorded", n.class, n.what))
+		case !inTx[n.class+"\x00"+string(n.b)]:
+			add(fmt.Sprintf("C04 key=image-public-outside-wtxmgr.%s: database file image contains %s in the clear and no wtxmgr bucket holds it", n.class, n.what))
+		}
+	}
 	return out
+}
+
+// walkBucket visits every key/value of a bucket tree (nested bucket names are visited as keys with nil value).
+func walkBucket(b walletdb.ReadBucket, path []string, f func(path []string, k, v []byte)) {
+	_ = b.ForEach(func(k, v []byte) error {
+		f(path, k, v)
+		if v == nil {
+			if nb := b.NestedReadBucket(k); nb != nil {
+				walkBucket(nb, append(append([]string{}, path...), string(k)), f)
+			}
+		}
+		return nil
+	})
 }
 
 func (r *runner) scanWrites(ws []puttap.Write) []string {
